@@ -158,7 +158,7 @@ Definition ann_ok (a : option fty) (T : fty) : bool :=
   match a with None => true | Some t => fty_eqb t T end.
 
 (* the entry point: a definition named `main` returns i64 (its value is the exit code of the program;
-   rule added with fix <commit12> of /repo - before it the language left the type of main open and the
+   rule added with fix 5b8c76f of /repo - before it the language left the type of main open and the
    translation to Core was ill-typed for any other type, finding main-non-integer-result of C12) *)
 Definition main_ret_ok (d : fdef) : bool :=
   if String.eqb (fdname d) "main" then fty_eqb (fdret d) FI64 else true.
@@ -315,7 +315,7 @@ Definition has_type_b (p : fprog) : bool :=
 Definition has_type (p : fprog) : Prop := has_type_b p = true.
 
 (* ---------- classification of ill-formed declaration types (diagnostic only) ----------
-   Until fix <commit15> of /repo the real checker looked only at the HEAD name of a type inside a
+   Until fix eb42971 of /repo the real checker looked only at the HEAD name of a type inside a
    data/codata declaration (former finding C15-lazy-declaration-types).  [has_type_lax_b] is has_type_b with exactly that
    weakening; [tty_defect] names the shape of the first defect of a declaration type. *)
 Definition head_ok (ts : list tdecl) (ps : list fname) (t : fty) : bool :=
